@@ -10,6 +10,7 @@ package publish
 //@ ghost pub(k any) int
 //@ ghost patches(k any) int
 //@ ghost lastPatched(k any) int
+//@ ghost lastOK(k any) int
 
 // inSync: every record description held in the local map is the provider's current one.
 //@ pure rk(data map[zoneName]idData, k int) int = recKey(cid(data[k].ZoneID), cid(data[k].RecordID))
@@ -28,8 +29,9 @@ package publish
 //@ func CloudflarePublisher.updateRecord returns (err)
 //@   trusted
 //@   requires cf != nil
-//@   modifies pub(recKey(cid(zoneID), cid(recordID))), patches(0), lastPatched(0)
+//@   modifies pub(recKey(cid(zoneID), cid(recordID))), patches(0), lastPatched(0), lastOK(0)
 //@   ensures patches(0) == old(patches(0)) + 1 && lastPatched(0) == recKey(cid(zoneID), cid(recordID))
+//@   ensures (err == nil) == (lastOK(0) == 1)
 //@   ensures err == nil ==> pub(recKey(cid(zoneID), cid(recordID))) == cid(data.Value)
 //@   ensures err != nil ==> pub(recKey(cid(zoneID), cid(recordID))) == old(pub(recKey(cid(zoneID), cid(recordID))))
 
@@ -46,7 +48,7 @@ package publish
 
 //@ func CloudflarePublisher.PublishECH returns (results)
 //@   requires cf != nil
-//@   modifies mapOf(cf.zoneIDs), pub, patches(0), lastPatched(0)
+//@   modifies mapOf(cf.zoneIDs), pub, patches(0), lastPatched(0), lastOK(0)
 //@   ensures[F:one-result-per-record] len(results) == len(records)
 //@   callsite "cf.updateRecord(" requires[F:only-if-changed] !bytesEq(newValue, oldValue)
 //@   callsite "cf.updateRecord(" requires[F:write-only-if-stale] has(data, zoneName{r.Zone, r.Name}) && cid(newValue) != storedEch(pub(rkz(data, zoneName{r.Zone, r.Name})))
@@ -55,10 +57,14 @@ package publish
 //@   callsite "cf.updateRecord(" requires[F:other-fields-kept] arg3.Priority == data[zoneName{r.Zone, r.Name}].Data.Priority && arg3.Target == data[zoneName{r.Zone, r.Name}].Data.Target
 //@   callsite "cf.updateRecord(" requires[F:value] cid(arg3.Value) == joinOf(newParams, cid(" ")) && len(newParams) == kept(params, len(params)) + 1 &&
 //@       cid(newParams[len(newParams)-1]) == fmtId("ech=\"%s\"", newValue) && cid(newValue) == b64of(base64.StdEncoding, cid(configList))
+//@   at "result.Code = StatusUpdated" assert[F:updated-means-written] has(data, zoneName{r.Zone, r.Name}) && lastPatched(0) == rkz(data, zoneName{r.Zone, r.Name}) && lastOK(0) == 1 && patches(0) > entry(patches(0))
+//@   at "result.Code = StatusError" assert[F:error-carries-cause] err != nil
 //@   loop 1 "range records"
+//@     invariant[F:error-iff-cause] forall(t, 0, ri1, (results[t].Code == StatusError) == (results[t].Error != nil), trig(results[t]))
+//@     invariant[F:code-is-defined] forall(t, 0, ri1, results[t].Code == StatusUpdated || results[t].Code == StatusNoChange || results[t].Code == StatusNotFound || results[t].Code == StatusError, trig(results[t]))
 //@     invariant[F:one-each] len(results) == ri1
 //@     invariant[F:in-sync] inSync(data) && data != nil && zones != nil
-//@     invariant[F:at-most-one-patch-each] patches(0) <= entry(patches(0)) + ri1
+//@     invariant[F:at-most-one-patch-each] patches(0) <= entry(patches(0)) + ri1 && patches(0) >= entry(patches(0))
 //@   loop 2 "range params"
 //@     invariant[F:params-kept] len(newParams) == kept(params, ri2) && forall(t, 0, ri2, !isEch(params[t]) ==> newParams[kept(params, t)] == params[t], trig(params[t]))
 //@     invariant[F:kept-below] forall(t, 0, ri2, !isEch(params[t]) ==> 0 <= kept(params, t) && kept(params, t) < kept(params, ri2), trig(params[t]))
